@@ -290,8 +290,28 @@ def check_bloc_ballots(p, bloc, prof, fail, tags):
                     fail("zero-support-candidates-not-one-final-tie", f"{r} zeros {sorted(zeros)}")
             elif any(len(s) != 1 for s in r):
                 fail("tied-position", str(r))
+        elif kind == "ac":
+            # AlternatingCrossover is documented to rank every candidate: bloc voters "rank all of their own bloc's
+            # candidates above the other bloc", crossover voters alternate, and a candidate of support 0.0 "will always
+            # appear at the bottom of the ballot" (docs, preference intervals)
+            missing = set(cands) - set(listed)
+            if missing:
+                opp = [x for x in blocs if x != bloc][0]
+                own_sup = [c for c, x in zip(slates[bloc], p["supports"][bloc][bloc]) if x > 0]
+                opp_sup = [c for c, x in zip(slates[opp], p["supports"][bloc][opp]) if x > 0]
+                crossover = bool(listed) and listed[0] in slates[opp]
+                if missing <= zeros:
+                    cause = "ac-omits-zero-support-candidates"
+                elif crossover and len(own_sup) != len(opp_sup) and \
+                        missing <= set(own_sup if len(own_sup) > len(opp_sup) else opp_sup) | zeros:
+                    cause = "ac-crossover-truncated-to-shorter-slate"
+                else:
+                    cause = "unexplained"
+                fail("incomplete-ranking", f"{r} lacks {sorted(missing)}", cause)
+            if any(len(s) != 1 for s in r) and not (r and r[-1] == zeros and all(len(s) == 1 for s in r[:-1])):
+                fail("tied-position", str(r))
         else:
-            # AlternatingCrossover / CambridgeSampler: well-formedness only; never a tie
+            # CambridgeSampler (historical ballot types are short by design): well-formedness only; never a tie
             if any(len(s) != 1 for s in r):
                 fail("tied-position", str(r))
 
